@@ -211,6 +211,11 @@ func GetS2(c *core.Ctx) *Set {
 				if len(p.Errors) > 0 {
 					msg = p.Errors[0].Msg
 				}
+				// a schema that exists only to isolate a known finding: GEN.types (C12) carries it; there is nothing to
+				// analyse for the other properties
+				if sc := s.SchemaOf[p.PkgPath]; sc != nil && sc.Known != "" {
+					continue
+				}
 				c.Fail("G.model", "S2 package "+strings.TrimPrefix(p.PkgPath, gen.CorpusModule+"/")+" type-checks", "the code generated by the working-tree plugin for this corpus schema does not type-check and cannot be analysed: "+msg, "", "S2")
 				continue
 			}
